@@ -378,6 +378,31 @@ fn check_core_inner(s: &[u8], st: &mut Stats) {
         }
     } else {
         st.class("core:not-wellformed(case-image-only)");
+        // -u- and -t- where one of them (or both) has an empty body: still "the relative order of
+        // the -u- and -t- extensions". Only inputs without empty subtags, each singleton once,
+        // the two extensions adjacent and before any -x-.
+        if let Zone::Either(_, "empty-subtag-or-body") = model::ref_locale(s) {
+            let toks = model::split(s);
+            let xpos = toks.iter().position(|t| t.len() == 1 && t[0].to_ascii_lowercase() == b'x').unwrap_or(toks.len());
+            let find = |c: u8| -> Vec<usize> { (1..xpos).filter(|i| toks[*i].len() == 1 && toks[*i][0].to_ascii_lowercase() == c).collect() };
+            let (us, ts) = (find(b'u'), find(b't'));
+            let singles: Vec<usize> = (1..toks.len()).filter(|i| toks[*i].len() == 1).collect();
+            if us.len() == 1 && ts.len() == 1 && toks.iter().all(|t| !t.is_empty()) {
+                let (first, second) = (us[0].min(ts[0]), us[0].max(ts[0]));
+                // adjacent: no other singleton between them
+                if !singles.iter().any(|i| *i > first && *i < second) {
+                    let end2 = singles.iter().copied().find(|i| *i > second).unwrap_or(toks.len());
+                    let mut sw: Vec<&[u8]> = toks[..first].to_vec();
+                    sw.extend_from_slice(&toks[second..end2]);
+                    sw.extend_from_slice(&toks[first..second]);
+                    sw.extend_from_slice(&toks[end2..]);
+                    let s2 = sw.join(&b'-');
+                    st.class("key:core-u/t-swapped-with-an-empty-body");
+                    let case = || pair_case(s, &s2);
+                    compare(s, &s2, "core-ut-swap-empty-body", st, &case);
+                }
+            }
+        }
     }
 }
 
@@ -406,6 +431,29 @@ pub fn run(cfg: &Cfg) -> Stats {
     let s = run_strategy(&strat2, cfg.seed, "c09-raw", n2, |(b, c, sp), st| check_raw(b, *c, *sp, st, Count::Hash));
     total = total.merge(s);
     total.subspace("G3 near-miss strings x case/separator masks (proptest)", n2, false);
+    // words with a meaning elsewhere (grandfathered / redundant BCP 47 tags, POSIX names, withdrawn codes),
+    // alone and followed by extensions: a whole-input or whole-prefix look-up table reacts to one
+    // spelling of them only. 40 case / separator images each (all upper, all '_', both, seeded masks).
+    let words: Vec<Vec<u8>> = crate::props::spaces::SPECIAL_WORDS
+        .iter()
+        .flat_map(|w| ["", "-u-ca-gregory", "-x-foo", "-valencia"].iter().map(move |s| format!("{w}{s}").into_bytes()))
+        .collect();
+    let per = 40u64;
+    let nw = words.len() as u64 * per;
+    let s = par_range(nw, |i, st| {
+        let w = &words[(i / per) as usize];
+        let (c, sp) = match i % per {
+            0 => (u64::MAX, 0),
+            1 => (0, u64::MAX),
+            2 => (u64::MAX, u64::MAX),
+            3 => (1, 0),
+            4 => (0, 1),
+            k => (mix(k ^ cfg.seed ^ i), if k % 3 == 0 { 0 } else { mix(k.wrapping_mul(77) ^ cfg.seed ^ i) }),
+        };
+        check_raw(w, c, sp, st, Count::Hash);
+    });
+    total = total.merge(s);
+    total.subspace("special words (grandfathered / redundant tags, POSIX names, withdrawn codes), bare and with a suffix, x 40 case / separator images", nw, false);
     total
 }
 
